@@ -503,7 +503,7 @@ func (r *Reader) Read() (f feat.Feature, err error) {
 	}
 
 	fields := bytes.SplitN(line, []byte{'\t'}, lastField)
-	if len(fields) < frameField {
+	if len(fields) <= frameField {
 		return nil, &csv.ParseError{Line: r.line, Column: len(fields), Err: ErrFieldMissing}
 	}
 
